@@ -468,6 +468,53 @@ type edRun struct {
 	ReMod     *modfile.File
 	ReWork    *modfile.WorkFile
 	Reparsed  *edDirs // nil = strict re-parse failed
+	// Collapsed: retract lines that some Cleanup of this session collapsed out of a one-line block that
+	// carried comments, with the block's comment text (structural cause of finding G2).
+	Collapsed map[*modfile.Line]string
+	StartPtr  map[*modfile.Line]bool
+}
+
+// edDirectiveText is the text of whole-line and end-of-line comments (blank placeholders skipped).
+func edDirectiveText(c *modfile.Comments) string {
+	var lines []string
+	for _, grp := range [][]modfile.Comment{c.Before, c.Suffix} {
+		for _, x := range grp {
+			if strings.HasPrefix(x.Token, "//") {
+				lines = append(lines, strings.TrimSpace(strings.TrimPrefix(x.Token, "//")))
+			}
+		}
+	}
+	return strings.Join(lines, "\n")
+}
+
+func edHasText(c *modfile.Comments) bool {
+	for _, grp := range [][]modfile.Comment{c.Before, c.Suffix} {
+		for _, x := range grp {
+			if strings.HasPrefix(x.Token, "//") {
+				return true
+			}
+		}
+	}
+	return false
+}
+
+// edTrackCollapse is called before every Cleanup: it records one-line commented retract blocks.
+func edTrackCollapse(run *edRun, fs *modfile.FileSyntax) {
+	for _, st := range fs.Stmt {
+		b, ok := st.(*modfile.LineBlock)
+		if !ok || len(b.Token) == 0 || b.Token[0] != "retract" || len(b.RParen.Before) > 0 || !edHasText(&b.Comments) {
+			continue
+		}
+		var live []*modfile.Line
+		for _, l := range b.Line {
+			if l.Token != nil {
+				live = append(live, l)
+			}
+		}
+		if len(live) == 1 {
+			run.Collapsed[live[0]] = edDirectiveText(&b.Comments)
+		}
+	}
 }
 
 // edLineRec records a directive line of the starting file.
@@ -515,7 +562,7 @@ func edTreeLines(fs *modfile.FileSyntax) []edLineRec {
 // edRunSession parses the file strictly, applies ops (a final Cleanup is always applied),
 // formats and re-parses strictly.  stopBefore < 0: run everything.
 func edRunSession(work bool, file string, ops []edOp) (run *edRun) {
-	run = &edRun{}
+	run = &edRun{Collapsed: map[*modfile.Line]string{}, StartPtr: map[*modfile.Line]bool{}}
 	var fs *modfile.FileSyntax
 	if work {
 		f, err := modfile.ParseWork("go.work", []byte(file), nil)
@@ -538,6 +585,7 @@ func edRunSession(work bool, file string, ops []edOp) (run *edRun) {
 	ids := map[*modfile.Line]int{}
 	for i, l := range run.Lines {
 		ids[l.Ptr] = i
+		run.StartPtr[l.Ptr] = true
 	}
 	if work {
 		run.Start = edDirsOfWork(run.Work, ids)
@@ -552,6 +600,9 @@ func edRunSession(work bool, file string, ops []edOp) (run *edRun) {
 	}()
 	for _, o := range ops {
 		cur = o.Name
+		if o.Name == "cleanup" {
+			edTrackCollapse(run, fs)
+		}
 		if work {
 			run.Res = append(run.Res, edApplyWork(run.Work, o))
 		} else {
@@ -559,6 +610,7 @@ func edRunSession(work bool, file string, ops []edOp) (run *edRun) {
 		}
 	}
 	cur = "final-cleanup"
+	edTrackCollapse(run, fs)
 	if work {
 		run.Work.Cleanup()
 		run.Typed = edDirsOfWork(run.Work, nil)
